@@ -595,9 +595,9 @@ func H_Open_SameAssetOtherPool() {
 	s.check("open-on-other-pool")
 }
 
-
 // The known finding on a small state: a SHORT whose custody (<= 10) is dwarfed by its liabilities (>= 1e5), so that the
 // accrued interest / funding uses the custody up; a partial close then removes the position.
+//
 //vrf:cover close-ok
 //vrf:bound SHORT position with custody <= 10, liabilities in [1e5, 1e6], close amount < liabilities; amm estimates havocked, never failing
 //vrf:max-paths 400
@@ -622,3 +622,37 @@ func H_Finding_ShortPartialCloseDestroys() {
 	vrf.AssertExcept(gerr == nil, "C09 close: a partial close does not remove the position (and what it still owes) from the books",
 		"C09-short-partial-close-destroys", gerr != nil)
 }
+
+// ---- consolidating open onto a position that has accrued borrow interest and funding since its last settlement ----
+
+func openConsolidate(pos perptypes.Position) {
+	estNoFail = true // a failing estimate fails the transaction (rolled back by baseapp)
+	s, m0 := setupPos(pos)
+	env, ctx := s.env, s.env.Ctx
+	coll := vrf.Int("collateral")
+	vrf.Assume(coll.IsPositive())
+	lev := vrf.Dec("leverage")
+	vrf.Assume(lev.GT(sdkmath.LegacyOneDec()))
+	vrf.Assume(lev.LTE(sdkmath.LegacyNewDec(25)))
+	msg := &perptypes.MsgOpen{Creator: trader.String(), Position: pos, Leverage: lev, TradingAsset: atom, Collateral: sdk.Coin{Denom: usdc, Amount: coll},
+		TakeProfitPrice: m0.TakeProfitPrice, StopLossPrice: sdkmath.LegacyZeroDec(), PoolId: 1}
+	res, err := env.Perp.Open(ctx, msg)
+	if err != nil {
+		return // failed transaction: rolled back by baseapp
+	}
+	vrf.Cover("open-ok")
+	vrf.Assert(res.Id == 1, "C09 consolidate: the open is merged into the trader's existing position")
+	vrf.Assert(len(env.Perp.GetAllMTPsForAddress(ctx, trader)) == 1, "C09 consolidate: no second position is left behind")
+	s.check("open-consolidate")
+}
+
+//vrf:cover open-ok
+//vrf:bound 1 explicit LONG position (uusdc collateral, symbolic unpaid interest, interest / funding last settled 10 blocks ago with symbolic cumulative rates) + symbolic remainder; consolidating open with symbolic collateral and leverage in (1, 25]; amm estimates havocked
+//vrf:max-paths 8000
+func H_Open_Consolidate_Long() { openConsolidate(perptypes.Position_LONG) }
+
+//vrf:cover open-ok
+//vrf:bound as H_Open_Consolidate_Long, SHORT
+//vrf:max-paths 8000
+//vrf:tier thorough
+func H_Open_Consolidate_Short() { openConsolidate(perptypes.Position_SHORT) }
